@@ -132,6 +132,9 @@ def main():
         return do_replay(a.pid, a.replay)
     pid = a.pid
     t0 = time.time()
+    # solver budgets: a changed function whose obligations all go `unknown` must not stall the check
+    os.environ.setdefault('PYVC_FN_BUDGET_S', '150' if a.tier == 'quick' else '900')
+    os.environ.setdefault('PYVC_EXT_S', '10' if a.tier == 'quick' else '30')
     REG = load_registry()
     keys = [k for k, c in REG.fns.items() if pid in c.props and not c.inline and not c.trusted]
     if a.only:
